@@ -185,28 +185,39 @@ type childJob struct {
 	post  func(entryResult) // run on the result of a child that returned normally
 }
 
-// runChildJobs runs the queued calls in child processes, 12 at a time, each killed after 6 s.
-func runChildJobs(c *Ctx, jobs []childJob) {
-	type outcome struct {
-		r      entryResult
-		err    error
-		killed bool
-	}
-	outs := make([]outcome, len(jobs))
+type childOutcome struct {
+	r      entryResult
+	err    error
+	killed bool
+}
+
+// runChildren runs the calls in child processes, 12 at a time, each killed after d.
+func runChildren(hcs []histCall, d time.Duration) []childOutcome {
+	outs := make([]childOutcome, len(hcs))
 	sem := make(chan struct{}, 12)
-	done := make(chan int, len(jobs))
-	for i := range jobs {
+	done := make(chan int, len(hcs))
+	for i := range hcs {
 		go func(i int) {
 			sem <- struct{}{}
-			r, err, killed := isolatedTimed(jobs[i].hc, 6*time.Second)
+			r, err, killed := isolatedTimed(hcs[i], d)
 			<-sem
-			outs[i] = outcome{r, err, killed}
+			outs[i] = childOutcome{r, err, killed}
 			done <- i
 		}(i)
 	}
-	for range jobs {
+	for range hcs {
 		<-done
 	}
+	return outs
+}
+
+// runChildJobs runs the queued calls in child processes, 12 at a time, each killed after 6 s.
+func runChildJobs(c *Ctx, jobs []childJob) {
+	hcs := make([]histCall, len(jobs))
+	for i, j := range jobs {
+		hcs[i] = j.hc
+	}
+	outs := runChildren(hcs, 6*time.Second)
 	for i, j := range jobs {
 		sfx := ""
 		if j.known {
